@@ -1100,21 +1100,34 @@ def _plain(r):
     return d
 
 
+def _same(e, exp):
+    if e['e'] == 'ser' or 'pk' in exp:
+        return e['e'] == 'ser' and 'pk' in exp and e['pk'] == exp['pk']
+    if e['e'] == 'call':
+        return 'out' in exp and e['out'] == exp['out'] and e['pks'] == exp['pks']
+    return e['e'] == 'hdr' and 'h' in exp and e['h'] == exp['h']
+
+
 def compare_expected(events, expected):
-    """events: the call/hdr events of a trace in order; expected: list of dicts."""
-    ok = 0
-    bad = []
-    for e, (exp, recs) in zip(events, expected):
-        if e['e'] == 'ser' or 'pk' in exp:
-            same = (e['e'] == 'ser' and 'pk' in exp and e['pk'] == exp['pk'])
-        elif e['e'] == 'call':
-            same = ('out' in exp and e['out'] == exp['out'] and e['pks'] == exp['pks'])
-            if recs is not None and e['args'] != recs:
-                raise common.MachineryError('argument conversion is not the inverse of the spec form: %r vs %r'
-                                            % (e['args'], recs))
-        else:
-            same = ('h' in exp and e['h'] == exp['h'])
-        if same:
+    """events: the events of a trace; expected: [(step index, what the spec says, argument records)], in the
+    order of the steps.  Compared step by step (a changed tree may produce fewer or more events for a step:
+    that is a mismatch of this step, the following steps stay aligned)."""
+    by = {}
+    for e in events:
+        by.setdefault(e['st'], []).append(e)
+    ok, bad, used = 0, [], {}
+    for (st, exp, recs) in expected:
+        i = used.get(st, 0)
+        used[st] = i + 1
+        lst = by.get(st, [])
+        if i >= len(lst):
+            bad.append(({'e': 'missing', 'st': st}, exp))
+            continue
+        e = lst[i]
+        if e['e'] == 'call' and 'out' in exp and recs is not None and e['args'] != recs:
+            raise common.MachineryError('argument conversion is not the inverse of the spec form: %r vs %r'
+                                        % (e['args'], recs))
+        if _same(e, exp):
             ok += 1
         else:
             bad.append((e, exp))
@@ -1267,6 +1280,16 @@ def report_violations(out, bad):
 
 
 # --------------------------------------------------------------------------- the check
+BUGS = ('pitch_sign', 'legacy_threshold', 'thrust_clip', 'goto_order', 'mask_add', 'hl_shared_packet', 'quat_unit_shortcut')
+
+
+def _mc_job(job):
+    kind, cfg = job
+    if kind == 'check':
+        return tlc.check('MC_Commands.tla', cfg, workers=4, timeout=3000)
+    return tlc.expect_violation('MC_Commands.tla', cfg, workers=4, timeout=600)
+
+
 def main(tier, seed, replay=None):
     out = common.Outcome('C08', tier, seed)
     rng = random.Random(seed)
@@ -1296,23 +1319,24 @@ def main(tier, seed, replay=None):
         out.evaluations = 1
         return out.finish()
 
-    # 1. design spec against the property: exhaustive; every bug variant must be refuted
+    # 1. design spec against the property: exhaustive; every bug variant must be refuted.
+    #    (quick tier: the run that dumps the graph for step 2 is the exhaustive check of MC_Commands_quick)
     cfg = 'MC_Commands_quick.cfg' if tier == 'quick' else 'MC_Commands_thorough.cfg'
-    r = tlc.check('MC_Commands.tla', cfg, timeout=3000)
-    out.add_tlc(cfg, r)
-    r = tlc.check('MC_Commands.tla', 'MC_Commands_dup.cfg', timeout=600)
-    out.add_tlc('MC_Commands_dup.cfg', r)
+    rg, g = tlc.dump_graph('MC_Commands.tla', 'MC_Commands_quick.cfg', timeout=1200)
+    if tier == 'quick':
+        out.add_tlc(cfg, rg)
+    else:
+        out.add_tlc(cfg, tlc.check('MC_Commands.tla', cfg, timeout=3000))
     # the link that keeps the packet object: Build / Hand / Ser interleavings, two calls in flight
     dcfg = 'MC_Commands_defer.cfg' if tier == 'quick' else 'MC_Commands_defer_thorough.cfg'
-    r = tlc.check('MC_Commands.tla', dcfg, timeout=3000)
-    out.add_tlc(dcfg, r)
-    for b in ('pitch_sign', 'legacy_threshold', 'thrust_clip', 'goto_order', 'mask_add', 'hl_shared_packet',
-              'quat_unit_shortcut'):
-        rb = tlc.expect_violation('MC_Commands.tla', 'MC_Commands_bug_%s.cfg' % b, timeout=600)
-        out.sensitivity['spec:Bug=' + b] = 'refuted (%s) after %d states' % (rb.violated, rb.distinct)
+    jobs = [('check', 'MC_Commands_dup.cfg'), ('check', dcfg)] + [('refute', 'MC_Commands_bug_%s.cfg' % b) for b in BUGS]
+    for (kind, c), r in zip(jobs, common.pmap(_mc_job, jobs, nproc=4, chunksize=1)):
+        if kind == 'check':
+            out.add_tlc(c, r)
+        else:
+            out.sensitivity['spec:Bug=' + c[len('MC_Commands_bug_'):-4]] = 'refuted (%s) after %d states' % (r.violated, r.distinct)
 
     # 2. spec -> code: every call state of the model-checked graph driven through the real API
-    rg, g = tlc.dump_graph('MC_Commands.tla', 'MC_Commands_quick.cfg', timeout=1200)
     gcalls = calls_from_graph(g)
     rs, behs = tlc.simulate('MC_Commands.tla', 'SIM_Commands.cfg', num=(60 if tier == 'quick' else 3000), depth=24,
                             seed=seed % 100000, timeout=1800)
@@ -1336,38 +1360,39 @@ def main(tier, seed, replay=None):
                 last = st['last']
                 a = py_args_from_records(last['args'])
                 sc.append(call_step(last['cmd'], a))
-                exp.append(({'out': last['out'], 'pks': [{'h': p['h'], 'data': list(p['data'])} for p in last['pks']]},
+                exp.append((len(sc) - 1, {'out': last['out'], 'pks': [{'h': p['h'], 'data': list(p['data'])} for p in last['pks']]},
                             [_plain(x) for x in last['args']]))
             elif name == 'Build':
                 if st['building']['obj'] == -1:       # over at once: raised / nothing to send
                     last = st['last']
                     sc.append(call_step(last['cmd'], py_args_from_records(last['args'])))
-                    exp.append(({'out': last['out'], 'pks': []}, [_plain(x) for x in last['args']]))
+                    exp.append((len(sc) - 1, {'out': last['out'], 'pks': []}, [_plain(x) for x in last['args']]))
                 else:
                     open_call, open_sers = st['building']['call'], []
             elif name == 'Ser':
                 pk = st['last']['pks'][0]
-                e = ({'pk': {'h': pk['h'], 'data': list(pk['data'])}}, None)
+                e = {'pk': {'h': pk['h'], 'data': list(pk['data'])}}
                 if open_call is not None:
                     open_sers.append(e)       # the link thread runs while the caller is between Build and Hand:
                 else:                         # the harness's link does that inside send_packet (queue full)
                     sc.append(['drain'])
-                    exp.append(e)
+                    exp.append((len(sc) - 1, e, None))
             elif name == 'Hand':
                 sc.append(call_step(open_call['cmd'], py_args_from_records(open_call['args'])))
-                exp.extend(open_sers)
-                exp.append(({'out': open_call['out'], 'pks': []}, [_plain(x) for x in open_call['args']]))
+                exp.extend((len(sc) - 1, e, None) for e in open_sers)
+                exp.append((len(sc) - 1, {'out': open_call['out'], 'pks': []}, [_plain(x) for x in open_call['args']]))
                 open_call, open_sers = None, []
             elif name == 'MakeHeader':
                 sc.append(['hdr', 'attrs', args[0], args[1]])
-                exp.append(({'h': st['last']['h']}, None))
+                exp.append((len(sc) - 1, {'h': st['last']['h']}, None))
         if exp:
             sim_scs.append(sc)
             sim_exp.append(exp)
     g_scs = chunked([(v, x, s) for (v, x, s, _e, _r) in gcalls], rng)
     g_traces = run(g_scs)
-    flat = [e for t in g_traces for e in t['ev'] if e['e'] in ('call', 'hdr', 'ser')]
-    ok1, badg = compare_expected(flat, [(e, rr) for (_v, _x, _s, e, rr) in gcalls])
+    # (a link that serialises at once: every call / header step yields exactly one event, on any tree)
+    flat = [dict(e, st=i) for i, e in enumerate(e for t in g_traces for e in t['ev'] if e['e'] in ('call', 'hdr'))]
+    ok1, badg = compare_expected(flat, [(i, e, rr) for i, (_v, _x, _s, e, rr) in enumerate(gcalls)])
     sim_traces = run(sim_scs)
     ok2, n2 = 0, 0
     bads = []
